@@ -68,8 +68,8 @@ def sig_of(m: dict, recs: list | None = None) -> dict:
     return sig
 
 
-def _edges_job(name: str, cfg: dict, work: core.Work, sample: int, seed: int, tier: str):
-    edges, r = core.dump_edges('Vpk', f'Vpk_{name}_edges.cfg')
+def _edges_job(name: str, cfg: dict, work: core.Work, sample: int, seed: int, tier: str, names=('n1',)):
+    edges, r = core.dump_edges('Vpk', f'Vpk_{name}_edges.cfg', timeout=1800)
     ops = {}
     for e in edges:
         k = e['a']['op'] + ':' + e['a']['res']
@@ -77,7 +77,7 @@ def _edges_job(name: str, cfg: dict, work: core.Work, sample: int, seed: int, ti
     ef = work.path(f'edges_{name}.json')
     ef.write_text(json.dumps(edges))
     cf_ = work.path(f'cfg_{name}.json')
-    cf_.write_text(json.dumps(dict(cfg, narch=2, names=['n1'])))
+    cf_.write_text(json.dumps(dict(cfg, narch=2, names=list(names))))
     out = work.path(f'walk_{name}.ndjson')
     st = json.loads(core.run_driver('c13_driver.py', ['walk', ef, cf_, out, sample], timeout=2400,
                                     env={'VERIF_SEED': seed, 'VERIF_TIER': tier}).strip().splitlines()[-1])
@@ -122,6 +122,9 @@ def run(tier: str, seed: int) -> int:
         # 2. every transition of the one-name models, covered by walks on real archives
         sample = 2500 if quick else 0
         ejobs = [pool.submit(_edges_job, n, c, work, sample, seed, tier) for n, c in CONFIGS.items()]
+        if not quick:
+            # two names (contents 2 and 3, archive None / 0): a seeded sample of the 116k transitions
+            ejobs.append(pool.submit(_edges_job, 'L2n2', CONFIGS['L2'], work, 20000, seed, tier, ('n1', 'n2')))
         # 3. TLC-simulated behaviours with three names and large contents; seeded random histories
         sjobs = [pool.submit(_sim_job, n, c, work, 40 if quick else 400, seed, tier) for n, c in SIMS.items()]
         rnd_out = work.path('random.ndjson')
@@ -156,22 +159,33 @@ def run(tier: str, seed: int) -> int:
         total = 0
         samples = []
         impl_ops: dict = {}
-        for p in recs:
-            mism, st = core.validate_records('VpkTrace', 'VpkTrace.cfg', p, work=work, timeout=2400)
-            rs = core.read_ndjson(p)
-            allsig += [sig_of(m, rs) for m in mism]
-            total += st['records']
-            cov['states'] += st['states']
-            cov['transitions'] += st['transitions']
-            for r in rs:
-                if r['k'] == 'step':
-                    k = r['a']['op'] + ':' + r['res']
-                    impl_ops[k] = impl_ops.get(k, 0) + 1
-                else:
-                    impl_ops['parts'] = impl_ops.get('parts', 0) + 1
-            mid = rs[len(rs) // 2]
-            samples.append({k: v for k, v in mid.items() if k in ('cfg', 'a', 'res', 'post', 'form', 'v')})
-            p.unlink()
+        # one file, so that TLC is started 16 times and not 16 times per driver
+        merged = work.path('all.ndjson')
+        with open(merged, 'w', encoding='utf-8') as mf:
+            for p in recs:
+                with open(p, encoding='utf-8') as f:
+                    for ln in f:
+                        mf.write(ln)
+                p.unlink()
+        mism, st = core.validate_records('VpkTrace', 'VpkTrace.cfg', merged, work=work, timeout=2400)
+        rs = core.read_ndjson(merged)
+        allsig += [sig_of(m, rs) for m in mism]
+        total += st['records']
+        cov['states'] += st['states']
+        cov['transitions'] += st['transitions']
+        hows: dict = {}
+        for r in rs:
+            if r['k'] == 'step':
+                k = r['a']['op'] + ':' + r['res']
+                impl_ops[k] = impl_ops.get(k, 0) + 1
+                hows[r['how']] = hows.get(r['how'], 0) + 1
+            else:
+                impl_ops['parts'] = impl_ops.get('parts', 0) + 1
+        cov['records_by_source'] = hows
+        for j in (len(rs) // 7, len(rs) // 3, len(rs) // 2, len(rs) - 1):
+            samples.append({k: v for k, v in rs[j].items() if k in ('how', 'cfg', 'a', 'res', 'post', 'form', 'v')})
+        del rs
+        merged.unlink()
         for c, fut in mc_futs.items():
             r = fut.result()
             core.require_mc(r, c)
@@ -191,7 +205,7 @@ def run(tier: str, seed: int) -> int:
         cov['samples'] = samples[:5]
         cov['exhaustive'] = not quick
         cov['rule'] = ('one covering walk per placement configuration over the transitions of the one-name model (a seeded '
-                       'sample of 2500 transitions per configuration in the quick tier, all in the thorough tier; transitions '
+                       'sample of 2500 transitions per configuration in the quick tier, all in the thorough tier plus 20000 of the two-name model; transitions '
                        'only reachable through steps the code does not follow are entered from states written by the '
                        'harness encoder, the rest is reported as unreachable); TLC-simulated behaviours (3 names, depth 14); '
                        'seeded random histories (2-4 names, sizes to 300 KiB, all limits, single and directory form); '
